@@ -46,11 +46,11 @@ def git_rev(path: str) -> str:
 # --------------------------------------------------------------------------------------
 # one run
 # --------------------------------------------------------------------------------------
-def execute(spec, choices: Choices):
+def execute(spec, choices: Choices, forced=None):
     """Run one simulated execution; returns (RunResult | None, error string | None)."""
     faulthandler.dump_traceback_later(RUN_WALL_S, exit=True)
     try:
-        res = spec.run(choices)
+        res = spec.run(choices, forced) if forced is not None else spec.run(choices)
         return res, None
     except (SimInternalError, SimStall, TaskHung, ChoiceBudgetExceeded) as e:
         return None, f"{type(e).__name__}: {e}\n{traceback.format_exc()}"
@@ -116,13 +116,36 @@ def worker_batch(args):
 # --------------------------------------------------------------------------------------
 # minimisation
 # --------------------------------------------------------------------------------------
-def run_values(spec, values):
+def run_values(spec, values, forced=None):
     ch = Choices(replay=values)
-    res, err = execute(spec, ch)
+    res, err = execute(spec, ch, forced)
     return res, err, ch
 
 
-def minimise(spec, values: List[int], sig: str, budget_evals=3000, budget_s=120.0):
+def det_batch(args):
+    """worker: run a batch of deterministic (forced) cases, each completed by a seeded schedule"""
+    prop, cases, base_seed = args
+    from harness.registry import get_spec
+    spec = get_spec(prop)
+    spec.prepare()
+    out = []
+    for idx, case in cases:
+        seed = derive_seed(base_seed + 7919, idx)
+        ch = Choices(seed)
+        res, err = execute(spec, ch, case)
+        if err is not None:
+            out.append({"seed": seed, "error": err, "forced": case})
+            continue
+        d = summarize(spec, seed, res)
+        d["forced"] = case
+        d["det"] = True
+        if d["violations"]:
+            d["choices"] = ch.values()
+        out.append(d)
+    return out
+
+
+def minimise(spec, values: List[int], sig: str, budget_evals=3000, budget_s=120.0, forced=None):
     """Delta-debugging over the recorded choice list; keeps the same violation signature."""
     t0 = time.time()
     evals = 0
@@ -130,7 +153,7 @@ def minimise(spec, values: List[int], sig: str, budget_evals=3000, budget_s=120.
     def fails(vals):
         nonlocal evals
         evals += 1
-        res, err, ch = run_values(spec, vals)
+        res, err, ch = run_values(spec, vals, forced)
         if err is not None or res is None:
             return False
         return any(v.sig == sig for v in own_violations(spec, res))
@@ -193,8 +216,9 @@ def minimise(spec, values: List[int], sig: str, budget_evals=3000, budget_s=120.
     return cur, evals, True
 
 
-def write_replay(spec, seed, values, vio, res, path):
+def write_replay(spec, seed, values, vio, res, path, forced=None):
     data = {
+        "forced": forced,
         "property": spec.prop,
         "harness": spec.harness,
         "seed": seed,
@@ -218,7 +242,7 @@ def replay_file(path: str):
         data = json.load(f)
     spec = get_spec(data["property"])
     spec.prepare()
-    res, err, ch = run_values(spec, data["choices"])
+    res, err, ch = run_values(spec, data["choices"], data.get("forced"))
     if err is not None:
         return False, "harness error: " + err, None, data
     want = data["violation"]["sig"]
@@ -297,6 +321,8 @@ def run_property(prop: str, tier: str, base_seed: int, workers: int, budget_s: f
                 stop = True
                 continue
             agg["runs"] += 1
+            if d.get("det"):
+                agg["det_done"] = agg.get("det_done", 0) + 1
             agg["stats"].update(d["stats"])
             agg["probes"].update(d["probes"])
             agg["sim_seconds"] += d["sim_seconds"]
@@ -323,8 +349,10 @@ def run_property(prop: str, tier: str, base_seed: int, workers: int, budget_s: f
     try:
         with ProcessPoolExecutor(max_workers=workers, mp_context=ctx) as ex:
             futs = set()
-            for case_batch in det:
-                futs.add(ex.submit(spec.run_det_batch, case_batch))
+            det_cases = list(enumerate(det))
+            agg["det_total"] = len(det_cases)
+            for i in range(0, len(det_cases), 40):
+                futs.add(ex.submit(det_batch, (prop, det_cases[i:i + 40], base_seed)))
             for _ in range(workers * 2):
                 futs.add(submit(ex))
             while futs:
@@ -363,8 +391,9 @@ def run_property(prop: str, tier: str, base_seed: int, workers: int, budget_s: f
             continue
         seen_sigs.add(v["sig"])
         values = d["choices"]
-        mvals, evals, ok = minimise(spec, values, v["sig"])
-        res, err, ch = run_values(spec, mvals)
+        forced = d.get("forced")
+        mvals, evals, ok = minimise(spec, values, v["sig"], forced=forced)
+        res, err, ch = run_values(spec, mvals, forced)
         vio = None
         if res is not None:
             for x in own_violations(spec, res):
@@ -372,7 +401,7 @@ def run_property(prop: str, tier: str, base_seed: int, workers: int, budget_s: f
                     vio = x
         if vio is None:     # minimised list does not reproduce: fall back to the original
             mvals = values
-            res, err, ch = run_values(spec, mvals)
+            res, err, ch = run_values(spec, mvals, forced)
             for x in own_violations(spec, res) if res is not None else []:
                 if x.sig == v["sig"]:
                     vio = x
@@ -380,8 +409,8 @@ def run_property(prop: str, tier: str, base_seed: int, workers: int, budget_s: f
             print(f"HARNESS-ERROR property={prop} seed={d['seed']} violation {v['sig']} did not replay "
                   f"in-process (nondeterminism)")
             return 2
-        path = os.path.join(VERIF, "replays", f"{prop}-{d['seed']}-{hashlib.md5(v['sig'].encode()).hexdigest()[:6]}.json")
-        write_replay(spec, d["seed"], mvals, vio, res, path)
+        path = os.path.join(os.environ.get("VERIF_REPLAY_DIR") or os.path.join(VERIF, "replays"), f"{prop}-{d['seed']}-{hashlib.md5(v['sig'].encode()).hexdigest()[:6]}.json")
+        write_replay(spec, d["seed"], mvals, vio, res, path, forced)
         okr, out = replay_in_fresh_process(path)
         if not okr:
             print(f"HARNESS-ERROR property={prop} replay {path} did not reproduce in a fresh process:\n{out}")
@@ -403,7 +432,8 @@ def run_property(prop: str, tier: str, base_seed: int, workers: int, budget_s: f
 
 
 def write_evidence(spec, tier, base_seed, agg, wall, violations, harness_error=False):
-    os.makedirs(os.path.join(VERIF, "evidence"), exist_ok=True)
+    evdir = os.environ.get("VERIF_EVIDENCE_DIR") or os.path.join(VERIF, "evidence")
+    os.makedirs(evdir, exist_ok=True)
     probes_zero = [p for p in spec.expected_probes if not agg["probes"].get(p)]
     runs = agg["runs"]
     cov = {
@@ -412,6 +442,7 @@ def write_evidence(spec, tier, base_seed, agg, wall, violations, harness_error=F
         "rule": spec.rule,
         "samples": agg["samples"] or [{"note": "no sample recorded"}],
         "exhaustive": False,
+        "deterministic_cases": {"done": agg.get("det_done", 0), "total": agg.get("det_total", 0)},
         "runs_per_hour": round(runs / wall * 3600) if wall > 0 else 0,
         "seeds": {"base": base_seed, "derivation": f"(base*{SEED_STRIDE}+i) & 0x7fffffffffff, i=0..{runs - 1}"},
         "sim_seconds": round(agg["sim_seconds"], 3),
@@ -439,5 +470,5 @@ def write_evidence(spec, tier, base_seed, agg, wall, violations, harness_error=F
         "wall_s": round(wall, 2),
         "violations": violations,
     }
-    with open(os.path.join(VERIF, "evidence", f"{spec.prop}.json"), "w") as f:
+    with open(os.path.join(evdir, f"{spec.prop}.json"), "w") as f:
         json.dump(ev, f, indent=1, default=str)
